@@ -30,7 +30,7 @@ TIERS = {
                   seed=dict(MaxSize=30, MaxDepth=2, Rich="FALSE"), seed_levels=1,
                   sim=dict(MaxSize=6, MaxDepth=2, Rich="TRUE"), sim_num=1, sim_workers=8, sim_depth=7),
     "thorough": dict(bfs=dict(MaxSize=3, MaxDepth=2, Rich="FALSE"),
-                     seed=dict(MaxSize=30, MaxDepth=2, Rich="TRUE"), seed_levels=2,
+                     seed=dict(MaxSize=30, MaxDepth=2, Rich="TRUE"), seed_levels=1,
                      sim=dict(MaxSize=8, MaxDepth=3, Rich="TRUE"), sim_num=12, sim_workers=16, sim_depth=9),
 }
 
